@@ -662,9 +662,35 @@ def _num(x):
   return repr(x)
 
 
+def strip_transform(a):
+  """The description without its user transforms (at any depth)."""
+  if not has_transform(a):
+    return a
+  b = dict(a, transform=None)
+  k = a['k']
+  if k == 'List':
+    b['elem'] = strip_transform(a['elem'])
+  elif k == 'Tuple':
+    b['elems'] = ([strip_transform(e) for e in a['elems']] if isinstance(a['elems'], list)
+                  else strip_transform(a['elems']))
+  elif k == 'Dict':
+    b['fields'] = [(fk, strip_transform(fv)) for fk, fv in a['fields'] or []] or a['fields']
+  elif k in ('Callable', 'Functor'):
+    b['args'] = [strip_transform(e) for e in a['args']]
+    b['kw'] = [(q, strip_transform(e)) for q, e in a['kw']]
+    b['returns'] = strip_transform(a['returns']) if a['returns'] else a['returns']
+  elif k == 'Union':
+    b['cands'] = [strip_transform(e) for e in a['cands']]
+  return b
+
+
 def good(a, n=2):
-  """A few value expressions the description accepts (by macc)."""
+  """A few value expressions the description accepts (by macc).  Used to build
+  pools and defaults only (never as an oracle): for a spec with user transforms
+  these are the values its transform-free twin accepts (every transform of
+  this file is the identity on them)."""
   out = []
+  a = strip_transform(a)
   for x in vals(a, depth=0):
     try:
       if macc(a, ev(x)) is True:
@@ -1050,6 +1076,51 @@ def nested(tier):
   return out
 
 
+def transforms(tier):
+  """Specs with a user transform: every spec class that takes one (List, Tuple,
+  Dict, Object, Callable, Functor, Any), with and without a default (a default
+  makes the constructor apply the spec once, before any extension), noneable /
+  frozen, and nested below transform-free containers and unions."""
+  thorough = tier == 'thorough'
+  SK = ('str', None)
+  tops = [
+      (List(Int()), 'tr_list'), (List(Int(0)), 'tr_list'), (List(Int(), None, 2), 'tr_list'),
+      (List(Int(), 1), 'tr_list'), (List(Dict([('x', Int())])), 'tr_id'),
+      (Tuple(Int()), 'tr_tuple'), (Tuple(Int(0), None, 3), 'tr_tuple'),
+      (Tuple(Int(), 1), 'tr_tuple'), (Tuple([Int(), Str()]), 'tr_tuple'),
+      (Tuple([Int()]), 'tr_id'),
+      (Dict(), 'tr_id'), (Dict([('x', Int())]), 'tr_id'),
+      (Dict([('x', Int(default='1'))]), 'tr_id'),
+      (Dict([('x', Int()), ('y', Str(noneable=True))]), 'tr_id'),
+      (Dict([(SK, Int())]), 'tr_id'), (Dict([('d', List(Int()))]), 'tr_id'),
+      (Object('A'), 'tr_a'), (Object('B'), 'tr_id'), (Object('P'), 'tr_id'),
+      (Callable(), 'tr_id'), (Callable([Int()]), 'tr_id'),
+      (Callable(functor=True), 'tr_id'), (Any(), 'tr_id'),
+  ]
+  out = []
+  for i, (a, tr) in enumerate(tops):
+    a = mod(a, transform=tr)
+    ms = modifiers(a, full=thorough or a['k'] in ('List', 'Dict') and i % 2 == 0)
+    out += ms
+  # nested: the transform sits on an element / field / candidate.
+  tl = List(Int(), transform='tr_list')
+  tld = List(Int(), transform='tr_list', default='[1]')
+  ttd = Tuple(Int(), transform='tr_tuple', default='(1,)')
+  tdd = Dict([('x', Int())], transform='tr_id', default="{'x': 1}")
+  td0 = Dict(transform='tr_id', default='{}')
+  toa = Object('A', transform='tr_a', default='A()')
+  for e in (tl, tld, ttd, tdd, td0, toa):
+    out.append(List(e))
+    out.append(Dict([('d', e)]))
+    if thorough or e in (tld, ttd):
+      out.append(Tuple([e, Int()]))
+      out.append(Tuple(e))
+      out.append(Union([e, Int()]))
+      out.append(Dict([(SK, e)]))
+      out.append(List(e, default='[]'))
+  return out
+
+
 def rand_spec(r, depth):
   """A seeded random description (bounds and sizes from small sets)."""
   leaf = depth <= 0 or r.random() < 0.3
@@ -1138,7 +1209,7 @@ class Universe:
 
   def __init__(self, tier, seed, want=lambda a: True, n_random=None, rec=None):
     r = rng(seed, 'c04-universe')
-    descs = atoms(tier) + containers(tier) + nested(tier)
+    descs = atoms(tier) + containers(tier) + nested(tier) + transforms(tier)
     if n_random is None:
       n_random = 70 if tier == 'quick' else 400
     self.n_random = n_random
@@ -1335,6 +1406,7 @@ def drv_apply(tier, seed):
         _check_default(rec, 'default.accepted-after-noneable', e + '.noneable()', None, k)
       if a['default'] is not None or k == 'Dict' or a['noneable']:
         _check_default(rec, 'default.accepted-after-freeze', e + '.freeze()', None, k)
+    _check_default_mutators(rec, U, i)
     # (6) frozen specs accept exactly their frozen value.
     if a['frozen'] is not None:
       d = sobj.default
@@ -1389,6 +1461,89 @@ def _check_default(rec, cid, e, sobj, k):
          'assert MV == d or acc(s, copy.deepcopy(d), allow_partial=True), d\n')
     rec.case(f'{cid}/{k}', e, False,
              f'{e} rejects its own default {R(d)}: {type(ex).__name__}: {ex}', fit(w, e))
+
+
+_MUTATORS = ('set_default', 'freeze')
+_SELF_EQ_ONLY = re.compile(r'\b[PQK]\(\)')
+
+
+def acc_live_v(spec, v, **kw):
+  try:
+    spec.apply(v, **kw)
+    return True
+  except Exception:  # pylint: disable=broad-except
+    return False
+
+
+def _check_default_mutators(rec, U, i):
+  """`set_default(v)` / `freeze(v)` on a fresh clone, for values the spec
+  rejects (one per kind of value + the first boundary values of its pool) and
+  values it accepts (as they are / by conversion): whether the call is refused
+  (raises) or succeeds, the default the spec carries afterwards is acceptable
+  to it.  (`use_default_apply=False` / `apply_before_use=False` ask for the
+  value to be stored unchecked and are outside the claim.)"""
+  a, e, k = U.descs[i], U.exprs[i], U.descs[i]['k']
+  rej, ok, kinds = [], [], set()
+  conv = None
+  for x in vals(a) + CORE:
+    j = U.vidx[x]
+    if x in rej or x in ok or x == conv or _SELF_EQ_ONLY.search(x):
+      continue      # (objects equal only to themselves: a clone would differ.)
+    if U.acc[i] >> j & 1:
+      if U.canon[i] >> j & 1:
+        if len(ok) < 2:
+          ok.append(x)
+      elif conv is None:
+        conv = x
+      continue
+    v = ev(x)
+    if is_missing(v):
+      continue
+    vk = vkind(v)
+    if vk not in kinds or len(rej) < 3:
+      kinds.add(vk)
+      rej.append(x)
+  for x in rej[:8] + ok + ([conv] if conv else []):
+    for op in _MUTATORS:
+      s = ev(e)
+      try:
+        getattr(s, op)(ev(x))
+        how = op if op == 'set_default' else 'freeze-value'
+      except OK_ERRORS:
+        how = 'refused-' + op
+      except Exception as ex:  # pylint: disable=broad-except
+        rec.case(f'default.{op}-error-class/{k}', (e, x), False,
+                 f'{e}.{op}({x}) raised {type(ex).__name__}: {ex}',
+                 fit(pre(e, x) + f's = {e}\ntry:\n  s.{op}({x})\n'
+                     'except (TypeError, ValueError, KeyError):\n  pass\n', (e, x)))
+        continue
+      d = s.default
+      cid = f'default.accepted-after-{how}/{k}'
+      if is_missing(d):
+        rec.case(cid, (e, x), True, nontrivial=False)
+        continue
+      try:
+        s.apply(copy.deepcopy(d), allow_partial=True)
+        rec.case(cid, (e, x), True)
+      except Exception as ex:  # pylint: disable=broad-except
+        if not how.startswith('refused') and a['frozen'] is None:
+          # the stored default is apply(v): if apply(v) as such is not accepted
+          # again, this is the failure of that law (one defect, one id).
+          try:
+            r = ev(e).apply(ev(x), allow_partial=True)
+            if fp(r) == fp(d) and not acc_live_v(ev(e), r, allow_partial=True):
+              cid = f'apply.reaccepted/{k}'
+          except Exception:  # pylint: disable=broad-except
+            pass
+        rec.case(cid, (e, x), False,
+                 f'after {e}.{op}({x}) ({"refused" if how.startswith("refused") else "succeeded"}) '
+                 f'the spec carries the default {R(d)}, which it rejects: '
+                 f'{type(ex).__name__}: {ex}',
+                 fit(pre(e, x) + f's = {e}\ntry:\n  s.{op}({x})\n'
+                     'except (TypeError, ValueError, KeyError):\n  pass\n'
+                     'import copy\nd = s.default\n'
+                     'assert MV == d or acc(s, copy.deepcopy(d), allow_partial=True), d\n',
+                     (e, x)))
 
 
 def pytypes(a):
@@ -1650,27 +1805,140 @@ def gap(c, b):
   return f'{name(c["k"])}{frozen}-{name(b["k"])}'
 
 
+def has_symbolic(v):
+  """A pg.List / pg.Dict somewhere in a value."""
+  if isinstance(v, (pg.List, pg.Dict)):
+    return True
+  if isinstance(v, (list, tuple)):
+    return any(has_symbolic(x) for x in v)
+  if isinstance(v, dict):
+    return any(has_symbolic(x) for x in v.values())
+  return False
+
+
+def plain(v):
+  """The value with plain lists / dicts in place of pg.List / pg.Dict."""
+  if isinstance(v, list):
+    return [plain(x) for x in _seq(v)]
+  if isinstance(v, tuple):
+    return tuple(plain(x) for x in v)
+  if isinstance(v, dict):
+    return {q: plain(x) for q, x in _items(v)}
+  return v
+
+
+def coarse(tag, b, c, v):
+  """The tag of a constraint below the top level of a container base becomes
+  <container>-element / -field (used for children with a user transform: one
+  id per level of the base, not one per leaf constraint)."""
+  if b['k'] == 'Union' and b['frozen'] is None:
+    same = [x for x in flat_cands(b) if x['k'] == c['k']]
+    if len(same) != 1:
+      return tag
+    b = same[0]
+  k = b['k']
+  if k not in ('List', 'Tuple', 'Dict') or b['frozen'] is not None or v is None:
+    return tag
+  if k == 'Dict':
+    if not isinstance(v, dict) or b['fields'] is None:
+      return tag
+    for key, x in _items(v):
+      f = field_for_key(b, key)
+      if f is None:
+        return tag
+      if not live_acc(f[1], copy.deepcopy(x)):
+        return 'dict-field'
+    return tag
+  if not isinstance(v, list if k == 'List' else tuple):
+    return tag
+  if k == 'Tuple' and tuple_fixed(b):
+    return tag if len(v) != len(tuple_elems(b)) else 'tuple-element'
+  mn, mx = sizes_of(b)
+  if len(v) < mn or (mx is not None and len(v) > mx):
+    return tag
+  return k.lower() + '-element'
+
+
+def narrow_cid(head, fam, law, ext, b, c, v):
+  """Case id of the value v, accepted (as it is) by the extension `ext` of c
+  and rejected by the base b: head + family of the child + law + input class.
+
+  Two input classes are named for what they are, whatever the child:
+    * a symbolic container (pg.List / pg.Dict) that `ext` accepts although it
+      rejects the same plain list / dict;
+    * a value that the base rejects although its transform-free twin accepts it
+      (every user transform of this file is the identity on such a value)."""
+  try:
+    if has_symbolic(v) and not acc_live_v(ext, plain(copy.deepcopy(v))):
+      return (f'{head}{law}/symbolic-value' +
+              ('-to-transform-spec' if has_transform(c) or has_transform(b) else ''))
+    if has_transform(b) and acc_live_v(ev(to_expr(strip_transform(b))), copy.deepcopy(v)):
+      return f'{head}{law}/transform-base-rejects-own-value'
+  except Exception:  # pylint: disable=broad-except
+    pass
+  tag = ext_tag(b, c, v) + origin(b, c)
+  if 'transform-child' in fam:
+    tag = coarse(tag, b, c, v)
+  return f'{head}{fam}{law}/{tag}'
+
+
+def tkind(c):
+  """The spec classes that carry a user transform inside a description."""
+  out = set()
+  def walk(a):
+    if a['transform']:
+      k = a['k']
+      out.add('Dict-no-schema' if k == 'Dict' and a['fields'] is None else
+              'Callable' if k == 'Functor' else k)
+    for x in children(a):
+      walk(x)
+  walk(c)
+  return '+'.join(sorted(out))
+
+
+def has_value(a):
+  """A default / frozen value somewhere: the constructor applies the spec."""
+  return (a['default'] is not None or a['frozen'] is not None or
+          any(has_value(x) for x in children(a)))
+
+
+def family(c, applied):
+  """Infix of the case ids of an extension: '' for a transform-free child that
+  is extended as constructed; otherwise the state of the child.  A child is
+  `applied` when it has been applied to values before it is extended, by the
+  test or by its own constructor (default / frozen value)."""
+  if has_transform(c):
+    return ('applied-' if applied or has_value(c) else '') + f'transform-child-{tkind(c)}.'
+  return 'applied-child.' if applied else ''
+
+
 def drv_extend(tier, seed):
   rec = Recorder('C04', 'clone(c).extend(b) succeeds => values of the extension are values '
-                 'of b; b.is_compatible(extension); default still accepted', scope='')
+                 'of b; b.is_compatible(extension); default still accepted; the same for a '
+                 'child (with / without user transform) that was applied before', scope='')
   U = Universe(tier, seed, want=lambda a: not has_regex(a),
                n_random=n_random(tier, 30, 300))
   n = len(U.specs)
   r = rng(seed, 'c04-extend')
-  n_pairs = n_ok = 0
+  r2 = rng(seed, 'c04-extend-applied')
+  n_pairs = n_ok = n_applied = 0
   paths = [dict_key_paths(a) for a in U.descs]
   bases = [ev(e) for e in U.exprs]
   for i in range(n):
     c, ec = U.descs[i], U.exprs[i]
-    if has_transform(c):
-      continue
+    tc = has_transform(c)
     cpaths = paths[i]
+    # values the child holds as they are: applied to it before the extension
+    # in the `applied` variants ("applying never changes the spec").
+    held = [U.pool[q] for q in bits(U.own[i] & U.acc[i] & U.canon[i])
+            if not is_missing(ev(U.pool[q]))]
+    held = held[:2] + held[-1:] if len(held) > 3 else held
     for j in range(n):
       b, eb = U.descs[j], U.exprs[j]
       if tier == 'quick':
         # related pairs; half of the (many) container / union pairs; 4% of the rest.
         rel = _related(c, b)
-        p_keep = (0.5 if c['k'] == b['k'] and c['k'] in _BIG else 1.0) if rel else 0.04
+        p_keep = (0.5 if c['k'] == b['k'] and c['k'] in _BIG and not tc else 1.0) if rel else 0.04
       else:
         p_keep = 1.0 if _related(c, b) else 0.05
       if p_keep < 1.0 and r.random() > p_keep:
@@ -1678,78 +1946,34 @@ def drv_extend(tier, seed):
       if has_transform(b) and b['k'] != c['k']:
         continue     # a user converter of another kind of spec: outside the algebra.
       n_pairs += 1
+      # the child as constructed; a child with a user transform also after it
+      # was applied to values; a sample of the other children likewise.
+      variants = [False]
+      if held and ((tc and not has_value(c)) or
+                   (not tc and r2.random() < (0.08 if tier == 'quick' else 0.25))):
+        variants.append(True)
       # NOTE: the base is one object per b, reused over all children (a fresh
       # one per pair doubles the cost); `extend` has no business changing its
       # argument, which is verified at the end of the run.
       base = bases[j]
-      try:
-        ext = ev(ec).extend(base)
-      except Exception:  # pylint: disable=broad-except
-        rec.case('extend.refused', (i, j), True, nontrivial=False)
-        continue
-      n_ok += 1
-      wpre = lambda: pre(ec, eb) + f'b = {eb}\next = {ec}.extend({eb})\n'  # pylint: disable=cell-var-from-loop
-      # values of the extension are values of the base.
-      m = U.own[i] | U.own[j]
-      cand = m & ~U.ensure(j, m)
-      if tier == 'quick':
-        cand = U.ensure(i, cand)        # ... that the child accepted before.
-      dicty = bool(cpaths) and cpaths != paths[j]
-      seen = set()
-      for q in bits(cand):
-        x = U.pool[q]
-        v = ev(x)
-        f0 = fp(v)
-        try:
-          if fp(ext.apply(v)) != f0:
-            continue       # accepted by conversion only: not a value of ext.
-        except Exception:  # pylint: disable=broad-except
-          continue
-        v = ev(x)
-        if dicty:
-          pv = project(v, c, b)
-          if fp(pv) != fp(v):
-            try:
-              U.specs[j].apply(copy.deepcopy(pv))
-              continue               # accepted on the shared fields.
-            except Exception:  # pylint: disable=broad-except
-              pass
-        cid = 'extend.narrower/' + ext_tag(b, c, v) + origin(b, c)
-        if cid in seen:
-          continue
-        seen.add(cid)
-        rec.case(cid, (ec, eb, x), False,
-                 f'{ec}.extend({eb}) -> {R(ext)} accepts {x}, which the base rejects',
-                 fit(pre(ec, eb, x) + f'b = {eb}\next = {ec}.extend({eb})\n'
-                     f'assert not (acc(ext, {x}) and not acc(b, {x}))\n', (ec, eb, x)))
-      if not seen:
-        rec.case('extend.narrower', (ec, eb), True)
-      # the base is compatible with the extension.
-      if not dicty and not has_transform(b):
-        try:
-          comp = base.is_compatible(ext)
-        except Exception as ex:  # pylint: disable=broad-except
-          comp = f'{type(ex).__name__}: {ex}'
-        tag = gap(c, b) if comp is not True else f'{c["k"]}-{b["k"]}'
-        if comp is True:
-          rec.case(f'extend.base-compatible/{tag}', (ec, eb), True)
+      for applied in variants:
+        fam = family(c, applied)
+        child = ev(ec)
+        if applied:
+          for x in held:
+            child.apply(ev(x))
+          mk = f'c = {ec}\n' + ''.join(f'c.apply({x})\n' for x in held) + f'ext = c.extend({eb})\n'
         else:
-          rec.case(f'extend.base-compatible/{tag}', (ec, eb), False,
-                   f'{ec}.extend({eb}) succeeded with {R(ext)}, but base.is_compatible(ext) '
-                   f'is {comp}', fit(wpre() + 'assert b.is_compatible(ext)\n', (ec, eb)))
-      # the default of the extension is acceptable to it.
-      d = ext.default
-      if not is_missing(d):
+          mk = f'ext = {ec}.extend({eb})\n'
         try:
-          dd = copy.deepcopy(d)
-          ext.apply(dd, allow_partial=True)
-          rec.case(f'extend.default-accepted/{c["k"]}', (ec, eb), True)
-        except Exception as ex:  # pylint: disable=broad-except
-          rec.case(f'extend.default-accepted/{c["k"]}', (ec, eb), False,
-                   f'{ec}.extend({eb}) -> {R(ext)} rejects its own default {R(d)}: '
-                   f'{type(ex).__name__}: {ex}',
-                   fit(wpre() + 'import copy\nassert acc(ext, copy.deepcopy(ext.default), '
-                       'allow_partial=True)\n', (ec, eb)))
+          ext = child.extend(base)
+        except Exception:  # pylint: disable=broad-except
+          rec.case('extend.refused', (i, j, applied), True, nontrivial=False)
+          continue
+        n_ok += 1
+        n_applied += applied
+        _check_extension(rec, U, tier, i, j, ext, base, fam, mk,
+                         bool(cpaths) and cpaths != paths[j])
   for j, base in enumerate(bases):
     clone = ev(U.exprs[j])
     if not (base == clone and repr(base) == repr(clone)):
@@ -1758,10 +1982,79 @@ def drv_extend(tier, seed):
                f'{U.exprs[j]} was changed by serving as the base of extensions: {R(base)}',
                '# see message\nraise AssertionError("base changed by extend")')
   rec.scope = (f'{n_pairs} ordered pairs (c, b) of {n} regex-free specs '
-               f'({"related pairs (half of the List/Tuple/Dict/Union ones) + 4% of the rest" if tier == "quick" else "all related pairs + 5% of the rest"}), '
-               f'{n_ok} successful extensions, each on the values of both pools + core that b '
+               f'({"related pairs (half of the transform-free List/Tuple/Dict/Union ones) + 4% of the rest" if tier == "quick" else "all related pairs + 5% of the rest"}), '
+               f'{n_ok} successful extensions ({n_applied} of a child that was applied to values '
+               f'first: every child with a user transform, a sample of the others), each on the '
+               f'values of both pools + core that b '
                f'rejects{" and c accepts" if tier == "quick" else ""} ({len(U.pool)} distinct values)')
   return rec.result()
+
+
+def _check_extension(rec, U, tier, i, j, ext, base, fam, mk, dicty):
+  """The laws of a successful extension `ext` of (a clone of) spec i on base j.
+  `mk`: the source that builds `ext`; `fam`: see `family`."""
+  c, ec, b, eb = U.descs[i], U.exprs[i], U.descs[j], U.exprs[j]
+  key = (ec, eb) if not fam.startswith('applied') else (ec, eb, 'applied')
+  wpre = lambda *xs: pre(ec, eb, *xs) + f'b = {eb}\n' + mk
+  # values of the extension are values of the base.
+  m = U.own[i] | U.own[j]
+  cand = m & ~U.ensure(j, m)
+  if tier == 'quick':
+    cand = U.ensure(i, cand)        # ... that the child accepted before.
+  seen = set()
+  for q in bits(cand):
+    x = U.pool[q]
+    v = ev(x)
+    f0 = fp(v)
+    try:
+      if fp(ext.apply(v)) != f0:
+        continue       # accepted by conversion only: not a value of ext.
+    except Exception:  # pylint: disable=broad-except
+      continue
+    v = ev(x)
+    if dicty:
+      pv = project(v, c, b)
+      if fp(pv) != fp(v):
+        try:
+          U.specs[j].apply(copy.deepcopy(pv))
+          continue               # accepted on the shared fields.
+        except Exception:  # pylint: disable=broad-except
+          pass
+    cid = narrow_cid('extend.', fam, 'narrower', ext, b, c, v)
+    if cid in seen:
+      continue
+    seen.add(cid)
+    rec.case(cid, key + (x,), False,
+             f'{mk.strip()} -> {R(ext)} accepts {x}, which the base rejects',
+             fit(wpre(x) + f'assert not (acc(ext, {x}) and not acc(b, {x}))\n', (ec, eb, x)))
+  if not seen:
+    rec.case(f'extend.{fam}narrower', key, True)
+  # the base is compatible with the extension.
+  if not dicty and not has_transform(b):
+    try:
+      comp = base.is_compatible(ext)
+    except Exception as ex:  # pylint: disable=broad-except
+      comp = f'{type(ex).__name__}: {ex}'
+    tag = gap(c, b) if comp is not True else f'{c["k"]}-{b["k"]}'
+    if comp is True:
+      rec.case(f'extend.{fam}base-compatible/{tag}', key, True)
+    else:
+      rec.case(f'extend.{fam}base-compatible/{tag}', key, False,
+               f'{mk.strip()} succeeded with {R(ext)}, but base.is_compatible(ext) '
+               f'is {comp}', fit(wpre() + 'assert b.is_compatible(ext)\n', (ec, eb)))
+  # the default of the extension is acceptable to it.
+  d = ext.default
+  if not is_missing(d):
+    try:
+      dd = copy.deepcopy(d)
+      ext.apply(dd, allow_partial=True)
+      rec.case(f'extend.{fam}default-accepted/{c["k"]}', key, True)
+    except Exception as ex:  # pylint: disable=broad-except
+      rec.case(f'extend.{fam}default-accepted/{c["k"]}', key, False,
+               f'{mk.strip()} -> {R(ext)} rejects its own default {R(d)}: '
+               f'{type(ex).__name__}: {ex}',
+               fit(wpre() + 'import copy\nassert acc(ext, copy.deepcopy(ext.default), '
+                   'allow_partial=True)\n', (ec, eb)))
 
 
 def kinds_in_union(a):
